@@ -224,6 +224,35 @@ def _w_malformed(task):
 # ------------------------------------------------------------------ run
 
 
+def _native_split_counterexample():
+    """native replay of a refuted Task.split obligation: ill-formed requests whose NAME COUNTS agree (k splitter fields without a
+    value, k values for fields that are not in the splitter) must be rejected by the real Task.split"""
+    from pydra.compose import python
+
+    @python.define
+    def VfSplitProbe(a=None, b=None, c=None):  # untyped on purpose: the fields hold lists already
+        return a
+
+    requests = [
+        ("a", {"b": [3, 4]}),
+        (["a", "b"], {"a": [1, 2], "c": [5, 6]}),
+        (("a", "b"), {"b": [1, 2], "c": [5, 6]}),
+        (["a", "b"], {"c": [1, 2], "b": [3, 4]}),
+    ]
+    for splitter, kwargs in requests:
+        try:
+            VfSplitProbe(a=[1, 2], b=[3, 4], c=[5, 6]).split(splitter, **kwargs)
+        except (ValueError, TypeError):
+            continue
+        return {"kind": "split-request", "splitter": repr(splitter), "values_given_for": sorted(kwargs), "accepted": True}
+    return None
+
+
+def _replay_split_request(rec):
+    cex = _native_split_counterexample()
+    return cex, cex is not None
+
+
 def deductive(ctx):
     """engine D: Submitter.__call__ — combining without splitting ends in an error before any Job is
     constructed, and the rule check precedes Job construction, on every path"""
@@ -238,7 +267,7 @@ def deductive(ctx):
     # Task.split: accepted only if values are given for exactly the splitter's fields (both guards, on every path)
     from contracts import split_validation as TS
 
-    summarize(ctx, verify(ctx, TS.contract()))
+    summarize(ctx, verify(ctx, TS.contract()), replay=_replay_split_request)
     # Task.combine: accepted only if every own combiner field is a field of the task; stored on a copy
     from contracts import combine_validation as CV
 
@@ -377,6 +406,13 @@ def _run(ctx):
 def replay(rec):
     case = rec["case"]
     f = None
+    if case.get("kind") == "split-request":
+        cex = _native_split_counterexample()
+        print(f"replay C05: ill-formed split requests with matching name counts against the real Task.split: {'accepted: ' + str(cex) if cex else 'all rejected'}")
+        if cex:
+            print(f"VIOLATION property=C05 replay={rec.get('_path', '')}")
+            return 1
+        return 0
     if case["kind"] == "equiv-state":
         f = check_equiv_state(SP.from_json(case["t"]), SP.from_json(case["nf"]), case["lens"], {})
     elif case["kind"] in ("equiv-e2e", "malformed", "control"):
